@@ -322,3 +322,25 @@ def rule_case_after_decode(model, rep, R, prefixes, minimum=3):
                           witness="oracle10.hash('p\\u00e4ssword', user=u) no longer verifies 'p\\u00e4ssword'.encode(): bytes.upper() leaves the non-ASCII letter alone, str.upper() folds it")
     if n < minimum:
         rep.undecided(R, "<instance-count>", f"only {n} in-function conversions to text found, expected at least {minimum}")
+
+
+def rule_bytes_case_folding(model, rep, R, prefixes):
+    """inside the branch a function takes for *bytes* input (`if / elif isinstance(v, bytes):`), `v.upper()` / `v.lower()` folds the 26 ASCII
+    letters only, while the text branch folds every letter: the same password given as text and as encoded bytes then hashes differently"""
+    n = 0
+    for un, unit in model.units.items():
+        if not un.startswith(tuple(prefixes)):
+            continue
+        for q, fn in unit.functions():
+            for node in walk_no_nested(fn):
+                if not (isinstance(node, ast.If) and isinstance(node.test, ast.Call) and ast.unparse(node.test.func) == "isinstance" and len(node.test.args) == 2
+                        and ast.unparse(node.test.args[1]) == "bytes" and isinstance(node.test.args[0], ast.Name)):
+                    continue
+                v = node.test.args[0].id
+                n += 1
+                folds = [c for st in node.body for c in ast.walk(st) if isinstance(c, ast.Call) and isinstance(c.func, ast.Attribute) and c.func.attr in ("upper", "lower", "casefold", "swapcase", "title")
+                         and isinstance(c.func.value, ast.Name) and c.func.value.id == v]
+                rep.check(not folds, R, f"{un}:{q} bytes branch", f"{ast.unparse(folds[0])}  # on bytes: ASCII letters only" if folds else f"no case folding of `{v}` as bytes",
+                          f"`{v}` is not case-folded while it is bytes",
+                          witness="lmhash.verify('\\u00e9'.encode('cp437'), lmhash.hash('\\u00e9')) is False: str.upper() folds the letter, bytes.upper() leaves b'\\x82' alone")
+    return n
